@@ -103,6 +103,9 @@ TNext == /\ l <= Len(Trace)
             IN IF e.kind = "slice"
                THEN \* decode of a sliced binary: the root's bytes are exactly the slice that was decoded
                     (IF e.got = e.want THEN TRUE ELSE PrintT(<<"REJECT", l, "bits.root_of_sliced_binary_is_not_the_slice">>))
+               ELSE IF e.kind = "bigarr"
+               THEN \* an array of e.len elements: every element's path ends in its position (count, mismatches, last element, and back through parent)
+                    (IF e.got = <<e.len, 0, e.len - 1, e.len - 1>> THEN TRUE ELSE PrintT(<<"REJECT", l, "path.array_index_differs_from_position">>))
                ELSE IF Len(T) = 0 THEN TRUE
                ELSE IF Len(e.obs) # Len(T) THEN PrintT(<<"REJECT", l, "path.node_count_differs">>)
                ELSE Report(BitsSig(e, T)) /\ Report(PathSig(e, T))
